@@ -46,8 +46,10 @@ def build(case):
     from pyunicorn.core import InteractingNetworks
     g = case["g"]
     A = G.adj(g).astype(int)
-    net = InteractingNetworks(adjacency=A, directed=g["directed"],
-                              node_weights=case["w"], silence_level=3)
+    net = InteractingNetworks(adjacency=G.represent_adj(A),
+                              directed=g["directed"],
+                              node_weights=G.represent_weights(case["w"]),
+                              silence_level=3)
     W = None
     if case.get("W") is not None and g["edges"]:
         W = np.array(case["W"], dtype=float) * (A != 0)
